@@ -115,6 +115,15 @@ func (f *FaceModule) create(interest *spec.Interest, pitToken []byte, inFace uin
 		return
 	}
 
+	// Nanoseconds, kept as a time.Duration (int64 nanoseconds): an interval beyond its range
+	// would wrap around to a negative one
+	if params.BaseCongestionMarkInterval != nil && *params.BaseCongestionMarkInterval > math.MaxInt64 {
+		core.LogWarn(f, "BaseCongestionMarkingInterval ", *params.BaseCongestionMarkInterval, " is out of range")
+		response = makeControlResponse(409, "BaseCongestionMarkingInterval is out of range", nil)
+		f.manager.sendResponse(response, interest, pitToken, inFace)
+		return
+	}
+
 	// Ensure does not conflict with existing face
 	existingFace := face.FaceTable.GetByURI(URI)
 	if existingFace != nil {
@@ -431,6 +440,14 @@ func (f *FaceModule) update(interest *spec.Interest, pitToken []byte, inFace uin
 	if params.Mtu != nil && *params.Mtu < minMTU {
 		core.LogWarn(f, "MTU ", *params.Mtu, " is too small to carry a packet")
 		responseParams["Mtu"] = uint64(*params.Mtu)
+		areParamsValid = false
+	}
+
+	// Nanoseconds, kept as a time.Duration (int64 nanoseconds): an interval beyond its range
+	// would wrap around to a negative one
+	if params.BaseCongestionMarkInterval != nil && *params.BaseCongestionMarkInterval > math.MaxInt64 {
+		core.LogWarn(f, "BaseCongestionMarkingInterval ", *params.BaseCongestionMarkInterval, " is out of range")
+		responseParams["BaseCongestionMarkInterval"] = uint64(*params.BaseCongestionMarkInterval)
 		areParamsValid = false
 	}
 
